@@ -661,3 +661,25 @@ func canon(v ssa.Value) ssa.Value {
 	}
 	return v
 }
+
+// freshObject: v is (the address of a field of) an object allocated by this function itself: an Alloc, possibly
+// reached through value-embedded struct fields and through single-assignment local cells — but never through a
+// pointer load (the pointee of a field of a fresh object need not be fresh, and a local cell holding a parameter
+// is not an object).
+func freshObject(v ssa.Value) bool {
+	for i := 0; i < 8; i++ {
+		v = canon(v)
+		switch x := v.(type) {
+		case *ssa.Alloc:
+			return true
+		case *ssa.FieldAddr:
+			v = x.X
+		case *ssa.IndexAddr:
+			// element of a local array (varargs pack)
+			v = x.X
+		default:
+			return false
+		}
+	}
+	return false
+}
